@@ -169,8 +169,29 @@ def analyse(prog):
                             bad.append(f"line {n.lineno}: {cls.name}.{fn.name} mutates {ast.unparse(n.func.value)}")
                 ob("F5-no-hidden-option-state", q, not bad, "; ".join(bad))
     # ---- F5 (dispatchers) : nothing assigns attributes on an object named options / *_options outside the session constructor
+    def qualified(tree):
+        """(function node, qualified name) for every function of the module: names do not depend on line numbers, so an edit
+        elsewhere in the file does not rename the obligations."""
+        out_ = []
+
+        def visit(node, prefix):
+            for ch in ast.iter_child_nodes(node):
+                if isinstance(ch, ast.ClassDef):
+                    visit(ch, prefix + ch.name + ".")
+                elif isinstance(ch, (ast.FunctionDef, ast.AsyncFunctionDef)):
+                    out_.append((ch, prefix + ch.name))
+                    visit(ch, prefix + ch.name + ".<locals>.")
+                else:
+                    visit(ch, prefix)
+        visit(tree, "")
+        return out_
+
     for mod in repo_mods:
-        for fn in [n for n in ast.walk(prog.trees[mod]) if isinstance(n, ast.FunctionDef)]:
+        seen_q = {}
+        for fn, qn in qualified(prog.trees[mod]):
+            seen_q[qn] = seen_q.get(qn, 0) + 1
+            if seen_q[qn] > 1:
+                qn = f"{qn}#{seen_q[qn]}"
             bad = []
             for n in ast.walk(fn):
                 if isinstance(n, (ast.Assign, ast.AugAssign)):
@@ -180,7 +201,7 @@ def analyse(prog):
                 if isinstance(n, ast.Call) and ast.unparse(n.func) in ("object.__setattr__", "setattr") and n.args and "options" in ast.unparse(n.args[0]):
                     bad.append(f"line {n.lineno}: setattr on an options object")
             if bad or "options" in [a.arg for a in fn.args.args]:
-                obligations.append({"name": f"frame/F5-options-read-only/{mod}:{fn.name}@{fn.lineno}", "rule": "F5-options-read-only", "where": f"{mod}:{fn.name}",
+                obligations.append({"name": f"frame/F5-options-read-only/{mod}:{qn}", "rule": "F5-options-read-only", "where": f"{mod}:{qn}",
                                     "status": "proved" if not bad else "refuted", "detail": "; ".join(bad)})
     # ---- F4: session constructors
     for cname in ("LDAPSession", "LDAPClient"):
